@@ -197,11 +197,23 @@ def pack_case(case):
     if bad:
         return "constraint #%d emitted by pack/unpack is violated by the recorded witness" % bad[0]
     if case.get("broken") is not None:
+        mode = case.get("broken_mode", "normal")
         try:
-            pkr.pack(case["broken"])
+            # a plain value has no constraint behind it: rejection cannot depend on the error policy in force
+            if mode == "ignore":
+                ns.rt.ignore_errors(True)
+                try:
+                    got = pkr.pack(case["broken"])
+                finally:
+                    ns.rt.ignore_errors(False)
+            elif mode == "false-guard":
+                got = ns.rt.guarded(ns.rt.PrivVal(0))(lambda: pkr.pack(case["broken"]))()
+            else:
+                got = pkr.pack(case["broken"])
         except (ValueError, AssertionError):
             return None
-        return "plain out-of-range value %r was packed without complaint" % (case["broken"],)
+        return "plain out-of-range value %r was packed without complaint%s (bits %r)" % (
+            case["broken"], {"normal": "", "ignore": " while ignore_errors is set", "false-guard": " under a false guard"}[mode], plainify(ns, got))
     return None
 
 
@@ -218,12 +230,13 @@ def pack_shard(seed, n_examples):
                 "offset": draw(st.integers(0, 3)), "b": b, "p": draw(st.sampled_from(["bn128", "bls12-381", "curve25519"]))}
         if not case["secret"] and draw(st.booleans()):
             case["broken"] = break_value(draw, s, case["value"])
+            case["broken_mode"] = draw(st.sampled_from(["normal", "ignore", "false-guard"]))
         from harness.ir import resolve_p
         case["p"] = resolve_p(case["p"])
         msg = pack_case(case)
         nt = depth(s) >= 2 and nonpow2(s)
         stats.case(case if nt else None, nt, ("mixed" if case["secret"] == "mixed" else "secret" if case["secret"] else "plain", "depth:%d" % depth(s),
-                                              "broken" if case.get("broken") is not None else "roundtrip"))
+                                              "broken:" + case.get("broken_mode", "") if case.get("broken") is not None else "roundtrip"))
         if msg:
             raise core.Violation(case, msg, "pack")
 
